@@ -7,6 +7,7 @@ import (
 	"errors"
 	"fmt"
 	"io"
+	"math"
 	"os"
 	"runtime/debug"
 	"slices"
@@ -90,6 +91,9 @@ func AutoLoad(s *eval.State, options Options) error {
 	// Read line by line because some stuff don't serialize well (eg +Inf https://github.com/grol-io/grol/issues/138)
 	// and yet we should try to get back as much as possible instead of aborting.
 	scanner := bufio.NewScanner(f)
+	// A line is a whole binding (a named function is saved whatever its length): no fixed limit, or the scanner
+	// stops there silently and everything from that line on is lost (for good, at the next auto save).
+	scanner.Buffer(make([]byte, 0, bufio.MaxScanTokenSize), math.MaxInt)
 	count := 0
 	errorCount := 0
 	var errs []error
@@ -103,6 +107,10 @@ func AutoLoad(s *eval.State, options Options) error {
 		errorCount++
 		errs = append(errs, err)
 		log.Errf("Error loading autoload line %q: %v", line, err)
+	}
+	if err := scanner.Err(); err != nil {
+		errs = append(errs, err)
+		log.Errf("Error reading %s: %v", AutoSaveFile, err)
 	}
 	_, numset := s.UpdateNumSet()
 	log.Infof("Auto loaded %s (%d set) %d lines, %d %s",
